@@ -493,7 +493,8 @@ handle_arglist(spif_int32_t n, spif_charptr_t val_ptr, unsigned char hasequal,
         tmp = (spif_charptr_t *) MALLOC(sizeof(spif_charptr_t ) * (argc - i + 1));
 
         for (k = 0; k < len; k++) {
-            tmp[k] = (spif_charptr_t) STRDUP(argv[k + i]);
+            /* The first word is the value itself, which may be attached to the option ("-eVALUE"). */
+            tmp[k] = (spif_charptr_t) STRDUP((k) ? (argv[k + i]) : ((char *) val_ptr));
             D_OPTIONS(("tmp[%d] == %s\n", k, tmp[k]));
             if (SPIFOPT_FLAGS_IS_SET(SPIFOPT_SETTING_REMOVE_ARGS)) {
                 argv[k + i] = NULL;
